@@ -49,6 +49,16 @@ pub fn specs(thorough: bool) -> Vec<ModuleSpec> {
                 let mut m = ModuleSpec::new(format!("wit/{}/{}/uninit-not-copy", ty.name(), pos), history(ty, true, Perturb::default(), later));
                 m.expect = Some("E0277".into());
                 out.push(m);
+                // the same, preceded (in the same step) by a plain datum of the same type, and by a
+                // may-be-uninit datum of another type
+                let mut h = if later { vec![addu("x", U8), close(Simple)] } else { Vec::new() };
+                h.push(add("p", ty));
+                h.push(addu("q", U16));
+                h.push(Step::Add { name: "w".to_owned(), ty, uninit: true, perturb: Perturb::default() });
+                h.push(close(Simple));
+                let mut m = ModuleSpec::new(format!("wit/{}/{}/uninit-not-copy-after-plain", ty.name(), pos), h);
+                m.expect = Some("E0277".into());
+                out.push(m);
             } else {
                 let mut m = ModuleSpec::new(format!("wit/{}/{}/uninit-copy-twin", ty.name(), pos), history(ty, true, Perturb::default(), later));
                 m.expect = Some("compiles".into());
